@@ -65,6 +65,8 @@ func allScenarios() []*scenario {
 			Why: "Add(empty transaction) ‖ Add: succeeds without creating a table"},
 		{Name: "S15-crash", Init: "two", Procs: []procSpec{P(add("a")), PNoAuto(add("b"), compactAll())}, Preempt: 2, Crashes: 1,
 			Why: "crash of either process as a choice at any scheduling point while the other continues"},
+		{Name: "S17-gc-empty", Init: "empty", Procs: []procSpec{P(st("clean"), st("close")), P(add("a"))}, Preempt: -1,
+			Why: "Clean and Close on a stack that is (or may still be) empty ‖ Add"},
 		{Name: "S16", Init: "three", Procs: []procSpec{PNoAuto(rng(1, 2)), PNoAuto(add("a"))}, Preempt: -1,
 			Why: "partial-range compaction over a tombstone ‖ Add"},
 	}
@@ -87,7 +89,7 @@ var quickSets = map[string][]string{
 	"C05": {"S1-one", "S2", "S4", "S4b", "S5", "S7-close", "S7-clean", "S13", "S15-crash", "S16"},
 	"C08": {"S1-one", "S2", "S4b", "S5", "S5b", "S8", "S7-clean"},
 	"C10": {"S6", "S6p", "S6o", "S1-one"},
-	"C16": {"S1-empty", "S1-one", "S2", "S4", "S5", "S7-close", "S7-clean", "S7-clean-compact", "S8", "S10"},
+	"C16": {"S1-empty", "S1-one", "S2", "S4", "S5", "S7-close", "S7-clean", "S7-clean-compact", "S8", "S10", "S17-gc-empty"},
 }
 
 func catalogue(prop, tier string) []*scenario {
